@@ -4,6 +4,7 @@ import (
 	"github.com/basecomplextech/baselibrary/alloc"
 	"github.com/basecomplextech/baselibrary/async"
 	"github.com/basecomplextech/baselibrary/logging"
+	"github.com/basecomplextech/baselibrary/ref"
 	"github.com/basecomplextech/baselibrary/status"
 	"github.com/basecomplextech/spec/internal/zzverif"
 	"github.com/basecomplextech/spec/mpx"
@@ -337,4 +338,114 @@ func ZZ_C04_ClientCalls() {
 	ch.Free()
 	zzverif.Assert(c.freed == 1, "channel freed exactly once")
 	zzverif.Reach("done")
+}
+
+// ---- server side ----------------------------------------------------------------------------------------------
+
+func (l *zzLog) TraceOn() bool               { return false }
+func (l *zzLog) ErrorOn() bool               { return true }
+func (l *zzLog) Trace(msg string, kv ...any) {}
+
+// zzRef is a reference-counted result as handlers return it.
+type zzRef struct {
+	b        []byte
+	released int
+}
+
+func (r *zzRef) Refcount() int64 { return 1 }
+func (r *zzRef) Retain()         {}
+func (r *zzRef) Release()        { r.released++ }
+func (r *zzRef) Unwrap() []byte  { return r.b }
+
+type zzRPCHandler struct {
+	calls  int
+	mode   int // 0 ok+result, 1 application status, 2 skip response, 3 panic
+	result *zzRef
+	code   string
+	method string
+}
+
+func (h *zzRPCHandler) Handle(ctx Context, ch ServerChannel) (ref.R[[]byte], status.Status) {
+	h.calls++
+	h.method = ch.(*serverChannel).Method()
+	switch h.mode {
+	case 0:
+		return h.result, status.OK
+	case 1:
+		return nil, status.Status{Code: status.Code(h.code), Message: "m"}
+	case 2:
+		return nil, SkipResponse
+	}
+	panic("handler panic")
+}
+
+// ZZ_C04_ServerCall: the first frame of a call is arbitrary (request with a symbolic method,
+// another frame type, or garbage). The handler runs exactly once iff it is a well-formed request;
+// the caller gets exactly one closing frame carrying the handler's result and status (none for a
+// oneway / skip-response call); a handler panic becomes a non-OK status; the result reference is
+// released exactly once.
+func ZZ_C04_ServerCall() {
+	kind := zzverif.Choice(4) // 0 request, 1 message, 2 end, 3 garbage
+	var first []byte
+	method := zzverif.String(zzverif.Param("ML"))
+	switch kind {
+	case 0:
+		w := prpc.NewRequestWriter()
+		cl := w.Calls()
+		c := cl.Add()
+		c.Method(method)
+		zzverif.Assume(c.End() == nil && cl.End() == nil)
+		req, err := w.Build()
+		zzverif.Assume(err == nil)
+		m, err := builder{}.buildRequest(ZZ_AcquireBuffer(), req)
+		zzverif.Assume(err == nil)
+		first = append([]byte{}, m.Unwrap().Raw()...)
+	case 1:
+		first = zzFrameOf(zzReply{kind: 0, data: zzverif.Bytes(1)})
+	case 2:
+		first = zzFrameOf(zzReply{kind: 1})
+	default:
+		first = zzverif.Bytes(2)
+	}
+	h := &zzRPCHandler{mode: zzverif.Choice(4), code: zzDrawCode(), result: &zzRef{b: []byte{zzverif.Byte(), 3}}}
+	zzverif.Assume(h.mode != 1 || h.code != "ok")
+	c := &zzChan{in: [][]byte{first}, final: status.End, wait: make(chan struct{})}
+	srv := &server{handler: h, logger: &zzLog{}}
+	st := srv.HandleChannel(mpx.ClosedContext(), c)
+
+	if kind != 0 {
+		zzverif.Assert(h.calls == 0, "handler ran without a well-formed request")
+		zzverif.Assert(!st.OK(), "malformed first frame reported as success")
+		zzverif.Assert(len(c.sent) == 0, "response sent without a request")
+		zzverif.Reach("rejected")
+		return
+	}
+	zzverif.Assert(h.calls == 1, "handler must run exactly once per request")
+	zzverif.Assert(h.method == method, "handler saw another method")
+	if h.mode == 2 {
+		zzverif.Assert(len(c.sent) == 0 && st.OK(), "oneway request must not get a response")
+		zzverif.Reach("oneway")
+		return
+	}
+	zzverif.Assert(len(c.sent) == 1 && c.closedSend, "exactly one closing response frame")
+	m, _, err := prpc.ParseMessage(c.sent[0])
+	zzverif.Assert(err == nil && m.Type() == prpc.MessageType_Response, "closing frame is a response")
+	res, rst := parseResult(m.Resp())
+	switch h.mode {
+	case 0:
+		zzverif.Assert(rst.OK() && string(res) == string(h.result.b), "caller must get the handler's result")
+		zzverif.Assert(h.result.released == 1, "result reference released exactly once")
+	case 1:
+		zzverif.Assert(string(rst.Code) == h.code && rst.Message == "m" && len(res) == 0, "caller must get the handler's status")
+	case 3:
+		zzverif.Assert(!rst.OK(), "handler panic must surface as a non-OK status")
+		zzverif.Reach("panic")
+	}
+	zzverif.Reach("responded")
+}
+
+// ZZ_Recover overrides status.Recover inside the engine (the real one formats the panic value and a
+// stack trace through fmt/runtime: an opaque string of unknown length).
+func ZZ_Recover(e any) status.Status {
+	return status.Status{Code: status.CodeError, Message: "panic"}
 }
